@@ -148,35 +148,49 @@ Next == \/ \E e \in {"named@default", "named@p1", "pkg@default", "pkg@p1"} : Cre
 Spec == Init /\ [][Next]_vars
 
 ---------------------------------------------------------------------------
-(* Properties of C17 on the model *)
+(* Properties of C17 on the model.  They are written over (E, B) = (Expected, Base) so that TLC computes the      *)
+(* expected environment once per state (AllProps / CheckAndEmit); the zero-argument forms are for reading and for  *)
+(* naming the conjunct that fails.                                                                                 *)
 TypeOK == /\ plat \in {"default", "p1"} /\ sel \in AllSels /\ spell \in {"lower", "mixed"} /\ interp \in BOOLEAN
           /\ present \subseteq EnvIds /\ \A e \in EnvIds : keys[e] \subseteq Keys /\ (e \notin present => keys[e] = {})
 
-ErrorIff == (~Expected.ok) <=> (sel = "unknown" \/ (sel \in NamedSels /\ ~Defined("named")))
+DeclaredP(B) == IF B.n = "-" THEN {} ELSE DOMAIN Layered(B.n) \ {"DEFAULTS"}
+LegitP(B)    == DOMAIN Sys \cup DeclaredP(B) \cup (IF B.ok THEN Imported(Merge(Sys, B.env)) ELSE {})
+                           \cup (IF interp THEN PathVars ELSE {})
 
-Declared == IF Base.n = "-" THEN {} ELSE DOMAIN Layered(Base.n) \ {"DEFAULTS"}
-ImportedNames == IF Base.ok THEN Imported(Merge(Sys, Base.env)) ELSE {}
-Legit == DOMAIN Sys \cup Declared \cup ImportedNames \cup (IF interp THEN PathVars ELSE {})
+(* an error exactly when a name is selected that neither the selected nor the default platform defines *)
+ErrorIffP(E, B) == (~E.ok) <=> (sel = "unknown" \/ (sel \in NamedSels /\ ~Defined("named")))
 
 (* apart from declared keys, imported names and the interpreter's search path nothing of the launch environment appears *)
-NoLeak == (Expected.ok /\ ~Base.launchcopy) => /\ DOMAIN Expected.env \subseteq Legit
-                                              /\ \A k \in DOMAIN Launch \ Legit : k \notin DOMAIN Expected.env
-NoneIsEmpty == (sel \in NoneSels) => DOMAIN Expected.env \subseteq DOMAIN Sys \cup (IF interp THEN PathVars ELSE {})
-SystemAlways == Expected.ok => \A k \in DOMAIN Sys : k \in DOMAIN Expected.env
+NoLeakP(E, B) == (E.ok /\ ~B.launchcopy) => /\ DOMAIN E.env \subseteq LegitP(B)
+                                            /\ \A k \in DOMAIN Launch \ LegitP(B) : k \notin DOMAIN E.env
+NoneIsEmptyP(E, B)  == (sel \in NoneSels) => DOMAIN E.env \subseteq DOMAIN Sys \cup (IF interp THEN PathVars ELSE {})
+SystemAlwaysP(E, B) == E.ok => \A k \in DOMAIN Sys : k \in DOMAIN E.env
 
 (* no text of an environment that is not a source for this platform / selection appears in a value *)
-NoForeignText == (Expected.ok /\ Base.n # "-") =>
-                    \A k \in DOMAIN Expected.env : \A i \in 1..Len(Expected.env[k]) :
-                        Expected.env[k][i].t = "lit" => Expected.env[k][i].e \in Sources(Base.n)
+NoForeignTextP(E, B) == (E.ok /\ B.n # "-") =>
+                           \A k \in DOMAIN E.env : LET v == E.env[k] IN
+                               \A i \in 1..Len(v) : v[i].t = "lit" => v[i].e \in Sources(B.n)
 
 (* platform over default: a key both define starts with the platform's text *)
-PlatformOverDefault == (Expected.ok /\ Base.n # "-" /\ plat = "p1" /\ Id(Base.n, "p1") \in present) =>
-                          \A k \in (keys[Id(Base.n, "p1")] \cap {"LIT", "ROWN", "PATH"}) :
-                              Expected.env[k][1] = L(k, Id(Base.n, "p1"), 1)
+PlatformOverDefaultP(E, B) == (E.ok /\ B.n # "-" /\ plat = "p1" /\ Id(B.n, "p1") \in present) =>
+                                 \A k \in (keys[Id(B.n, "p1")] \cap {"LIT", "ROWN", "PATH"}) :
+                                     E.env[k][1] = L(k, Id(B.n, "p1"), 1)
 
 (* own before launch: $LIT inside ROWN becomes the environment's LIT whenever the environment has one *)
-OwnBeforeLaunch == (Expected.ok /\ Base.n # "-" /\ "ROWN" \in Declared /\ "LIT" \in Declared) =>
-                      Expected.env["ROWN"][2].e # "launch"
+OwnBeforeLaunchP(E, B) == (E.ok /\ B.n # "-" /\ "ROWN" \in DeclaredP(B) /\ "LIT" \in DeclaredP(B)) =>
+                             E.env["ROWN"][2].e # "launch"
+
+AllPropsP(E, B) == /\ ErrorIffP(E, B) /\ NoLeakP(E, B) /\ NoneIsEmptyP(E, B) /\ SystemAlwaysP(E, B)
+                   /\ NoForeignTextP(E, B) /\ PlatformOverDefaultP(E, B) /\ OwnBeforeLaunchP(E, B)
+
+ErrorIff            == ErrorIffP(Expected, Base)
+NoLeak              == NoLeakP(Expected, Base)
+NoneIsEmpty         == NoneIsEmptyP(Expected, Base)
+SystemAlways        == SystemAlwaysP(Expected, Base)
+NoForeignText       == NoForeignTextP(Expected, Base)
+PlatformOverDefault == PlatformOverDefaultP(Expected, Base)
+OwnBeforeLaunch     == OwnBeforeLaunchP(Expected, Base)
 
 (* adding a key to / creating an environment that is not a source for this selection and platform never changes  *)
 (* the result (action property): the other kind of environment, the other platform's environments                *)
@@ -186,12 +200,15 @@ ForeignIrrelevant == [][(\A e \in RelevantIds : keys'[e] = keys[e] /\ (e \in pre
                            => Expected' = Expected]_vars
 
 ---------------------------------------------------------------------------
-Case == [family |-> Family, plat |-> plat, sel |-> sel, spell |-> spell, interp |-> interp,
-         envs |-> [e \in present |-> EnvFn(e)],
-         launch |-> Launch, sys |-> Sys,
-         class |-> (IF sel \in NoneSels THEN "none" ELSE IF sel \in NamedSels THEN "named" ELSE IF sel = "unknown" THEN "unknown"
-                    ELSE IF Base.launchcopy THEN "default-launch" ELSE "default-pkg"),
-         legit |-> Legit,
-         expected |-> Expected]
-EmitCase == Emit => PrintT(ToJson(Case))
+CaseP(E, B) == [family |-> Family, plat |-> plat, sel |-> sel, spell |-> spell, interp |-> interp,
+                envs |-> [e \in present |-> EnvFn(e)],
+                launch |-> Launch, sys |-> Sys,
+                class |-> (IF sel \in NoneSels THEN "none" ELSE IF sel \in NamedSels THEN "named" ELSE IF sel = "unknown" THEN "unknown"
+                           ELSE IF B.launchcopy THEN "default-launch" ELSE "default-pkg"),
+                legit |-> LegitP(B),
+                expected |-> E]
+(* all properties and the emission of the state for the conformance driver, with Expected computed once *)
+CheckAndEmit == LET E == Expected
+                    B == Base
+                IN AllPropsP(E, B) /\ (Emit => PrintT(ToJson(CaseP(E, B))))
 =============================================================================
